@@ -449,6 +449,13 @@ class DiffXWriter(object):
         section = self._build_section(section_level, section_name)
         self._validate_section(section)
 
+        # Build the header up-front. If any of the options can't be
+        # represented in a header, this will fail before anything is written
+        # to the stream and before the section state changes.
+        header = self._build_section_header(section=section,
+                                            encoding=encoding,
+                                            **options)
+
         # If we're writing a new section at the current level, or moving up
         # levels, we'll need to pop the appropriate number of sections off
         # the stack.
@@ -459,9 +466,7 @@ class DiffXWriter(object):
             'encoding': encoding or self._cur_encoding,
         })
 
-        self._write_section_header(section=section,
-                                   encoding=encoding,
-                                   **options)
+        self._write_section_header(section, header)
 
     def _new_content_section(self,
                              section_name,
@@ -533,11 +538,13 @@ class DiffXWriter(object):
         if write_line_endings_option:
             header_options['line_endings'] = line_endings
 
-        self._write_section_header(section, **header_options)
+        header = self._build_section_header(section, **header_options)
+
+        self._write_section_header(section, header)
         self.fp.write(content)
 
-    def _write_section_header(self, section, **options):
-        """Write a section header to the stream.
+    def _build_section_header(self, section, **options):
+        """Return the header for a section.
 
         Args:
             section (unicode):
@@ -545,6 +552,10 @@ class DiffXWriter(object):
 
             **options (dict):
                 Additional options to provide in the header.
+
+        Returns:
+            bytes:
+            The header line, including the trailing newline.
         """
         options_str = ', '.join(
             '%s=%s' % (_key, _value)
@@ -553,14 +564,24 @@ class DiffXWriter(object):
             if _value is not None
         )
 
-        fp = self.fp
-        fp.write(b'#%s:' % section.encode('ascii'))
+        header = b'#%s:' % section.encode('ascii')
 
         if options_str:
-            fp.write(b' ')
-            fp.write(options_str.encode('ascii'))
+            header += b' ' + options_str.encode('ascii')
 
-        fp.write(b'\n')
+        return header + b'\n'
+
+    def _write_section_header(self, section, header):
+        """Write a section header to the stream.
+
+        Args:
+            section (unicode):
+                The section being written.
+
+            header (bytes):
+                The header line built by :py:meth:`_build_section_header`.
+        """
+        self.fp.write(header)
 
         self._prev_section = section
 
